@@ -179,11 +179,11 @@ def one_case(args):
 def run(tier: str, seed: int) -> Result:
     silence_labtech()
     if tier == 'quick':
-        inject_cases = ['pickle-small', 'json-small', 'pickle-multi', 'pickle-blob', 'json2-multi']
+        inject_cases = ['pickle-small', 'json-small', 'pickle-multi', 'pickle-blob', 'json2-multi', 'two-multi']
         natural = ['pickle-unpicklable0', 'pickle-unpicklable1', 'pickle-unpicklable-deep', 'json-unserialisable']
         modes = ('raise',)
     else:
-        inject_cases = ['pickle-small', 'json-small', 'pickle-multi', 'pickle-blob', 'json-multi', 'json2-small', 'json2-multi', 'pickle-nonascii']
+        inject_cases = ['pickle-small', 'json-small', 'pickle-multi', 'pickle-blob', 'json-multi', 'json2-small', 'json2-multi', 'pickle-nonascii', 'two-multi']
         natural = ['pickle-unpicklable0', 'pickle-unpicklable1', 'pickle-unpicklable-deep', 'json-unserialisable']
         modes = ('raise', 'partial')
     work = []
@@ -243,7 +243,7 @@ def run(tier: str, seed: int) -> Result:
         'distinct_nontrivial': fired,
         'rule': ('one evaluation = one real serial-backend run with exactly one injected fault (storage operation #j: open / write call / close; a handle whose data is lost at close; the same single faults with ONE Lab object performing and then judging the failed overwrite; or the '
                  'k-th executed line of cache.py/storage.py/serialization.py inside BaseCache.save, raising an OSError or a non-Exception BaseException) or a result that cannot be serialised (fails before / after one / '
-                 'after many frames); x {PickleCache, JSON cache} x {small, multi-frame, one large out-of-frame bytes object} x {first save, overwrite via bust_cache, save over a complete entry that another cache class with the same key prefix wrote - judged by observers of either class}; followed by the recovery '
+                 'after many frames); x {PickleCache, JSON cache, a cache format with two result files} x {small, multi-frame, one large out-of-frame bytes object} x {first save, overwrite via bust_cache, save over a complete entry that another cache class with the same key prefix wrote - judged by observers of either class}; followed by the recovery '
                  'oracle on a fresh Lab (is_cached, cached_tasks, run_tasks); distinct_nontrivial = injections that actually fired'),
         'samples': [repr(w) for w in (work[0], work[len(work) // 2], work[-1])] + [
             {'baseline': k, 'storage_ops': v['ops'], 'line_events_in_save': v['lines']} for k, v in list(baselines.items())[:2]],
